@@ -213,6 +213,7 @@ Proof.
     assert (Hp2 : pending (do_step s1 (AMark (length (conns s)))) = (if lim then [] else [] ++ [length (conns s)]))
       by (rewrite do_step_pending_same by exact I; exact Hp).
     eapply notify_after_append; [exact Hp2|reflexivity].
+  - exact P.
 Qed.
 
 Lemma apply_op_pending : forall s o, pending s = [] -> pending (apply_op s o) = [].
@@ -291,6 +292,7 @@ Proof.
         eexists. split; [apply nth_error_set_nth_eq; rewrite app_length; cbn; lia|]. cbn.
         rewrite get_conn_app_new. reflexivity.
       * rewrite (do_step_none _ _ E), Hc. apply da_conns_app.
+  - auto.
 Qed.
 
 (* ---- calls never disappear --------------------------------------------------------------------- *)
